@@ -1050,6 +1050,11 @@ class UniformMeshGeometryConverter(GeometryConverter):
             )
             src = sourceAssem.spatialLocator
             newLoc = self.convReactor.core.spatialGrid[src.i, src.j, 0]
+            # The volume-integrated parameters mapped from the source assembly already reflect
+            # the symmetry factor of this location. Put the new assembly there up front so that
+            # adding it to the core is not seen as a move onto a symmetry line (which would scale
+            # those parameters a second time).
+            newAssem.spatialLocator = newLoc
             self.convReactor.core.add(newAssem, newLoc)
 
     def _clearStateOnReactor(self, reactor, cache):
